@@ -4,8 +4,8 @@ cd "$(dirname "$0")/.." || exit 2
 tier=${1:-quick}
 for i in ${CHECKS:-01 02 03 04 05 06 07 08 09 10 11 12 13 14 15 16 17 18 19 20}; do
   start=$(date +%s)
-  timeout ${2:-1500} ./check C$i $tier > /tmp/drfverif_C$i.out 2>&1
+  timeout ${2:-1500} ./check C$i $tier > ${OUTDIR:-/tmp}/drfverif_C$i.out 2>&1
   rc=$?
   end=$(date +%s)
-  echo "C$i rc=$rc $((end-start))s $(grep -c '^VIOLATION' /tmp/drfverif_C$i.out) violations $(grep -c '^KNOWN-FINDING' /tmp/drfverif_C$i.out) known | $(tail -1 /tmp/drfverif_C$i.out | cut -c1-150)"
+  echo "C$i rc=$rc $((end-start))s $(grep -c '^VIOLATION' ${OUTDIR:-/tmp}/drfverif_C$i.out) violations $(grep -c '^KNOWN-FINDING' ${OUTDIR:-/tmp}/drfverif_C$i.out) known | $(tail -1 ${OUTDIR:-/tmp}/drfverif_C$i.out | cut -c1-150)"
 done
